@@ -104,3 +104,124 @@ def inline_new_helpers(d, short_name):
         if not changed:
             break
     return done
+
+
+# ---------------------------------------------------------------------------------------------------------------------------------
+# `iter.for_each(|x| body)`  ->  the MIR of  `for x in iter { body }`
+#
+# A for_each whose closure writes through a captured `&mut` is the same loop as the `for` form, but its stores, calls and pushes live in
+# another body, where no rule about the enclosing function sees them.  The call is undone on the facts: a loop header calling
+# Iterator::next on the iterator argument, the Option dispatch, and the closure body spliced in with its captures replaced by the operands of
+# the closure aggregate and its argument by the Some payload - block for block what rustc emits for the `for` loop.
+def _closure_def(c, local):
+    found = None
+    for blk in c['blocks']:
+        for s in blk['stmts']:
+            if s['pl']['l'] == local and not s['pl']['p']:
+                if found is not None:
+                    return None
+                found = s
+    if found is None or found['rv'].get('k') != 'agg' or found['rv'].get('ak') != 'closure':
+        return None
+    return found
+
+
+def _subst_captures(x, env_local, caps, by_ref):
+    """rewrite places rooted in the closure environment (`(*_1).k` or `_1.k`) into the captured operand's place"""
+    if isinstance(x, dict):
+        if 'l' in x and 'p' in x and isinstance(x['p'], list) and x['l'] == env_local:
+            p = x['p']
+            i = 0
+            if by_ref and p and p[0] == 'deref':
+                i = 1
+            if len(p) > i and isinstance(p[i], dict) and 'f' in p[i] and p[i]['f'] < len(caps) and caps[p[i]['f']] is not None:
+                cap = caps[p[i]['f']]
+                return {**x, 'l': cap['l'], 'p': list(cap['p']) + [_subst_captures(e, env_local, caps, by_ref) for e in p[i + 1:]]}
+            return None         # the environment used as a whole: give up (caller checks for None)
+        out = {}
+        for k, v in x.items():
+            nv = _subst_captures(v, env_local, caps, by_ref)
+            if nv is None and v is not None:
+                return None
+            out[k] = nv
+        return out
+    if isinstance(x, list):
+        out = []
+        for v in x:
+            nv = _subst_captures(v, env_local, caps, by_ref)
+            if nv is None and v is not None:
+                return None
+            out.append(nv)
+        return out
+    return x
+
+
+def _next_fn(item_ty, iter_ty):
+    return {'k': 'const', 'ty': f'fn(&mut {iter_ty}) -> Option<{item_ty}> {{Iterator::next}}',
+            'fn': {'path': 'std::iter::Iterator::next', 'full': f'<{iter_ty} as std::iter::Iterator>::next', 'res': 'std::iter::Iterator::next',
+                   'trait': 'std::iter::Iterator', 'arg0': iter_ty, 'local': False, 'res_local': False}}
+
+
+def desugar_for_each(d):
+    bodies = {b['path']: b for b in d['bodies']}
+    done = []
+    for p, c in list(bodies.items()):
+        for bi in range(len(c['blocks'])):
+            t = c['blocks'][bi]['term']
+            if t['k'] != 'call' or ((t.get('f') or {}).get('fn') or {}).get('path') != 'std::iter::Iterator::for_each' or len(t.get('args', ())) != 2:
+                continue
+            it, cl = t['args']
+            if it['k'] != 'move' or it['pl']['p'] or cl['k'] != 'move' or cl['pl']['p']:
+                continue
+            if t.get('t') is None or t.get('t', -1) < 0:
+                continue
+            agg = _closure_def(c, cl['pl']['l'])
+            h = bodies.get(agg['rv'].get('def')) if agg else None
+            if h is None or h['argc'] != 2 or len(h['blocks']) > MAX_BLOCKS:
+                continue
+            caps = [o['pl'] if o['k'] in ('copy', 'move') else None for o in agg['rv']['ops']]
+            env_ty = h['locals'][1]['ty']
+            by_ref = env_ty.startswith('&')
+            ol, ob = len(c['locals']), len(c['blocks'])
+            blocks = []
+            ok = True
+            for hb in h['blocks']:
+                nb = _subst_captures(_shift(hb, ol, ob), ol + 1, caps, by_ref)
+                if nb is None:
+                    ok = False
+                    break
+                blocks.append(nb)
+            if not ok:
+                continue
+            n = len(h['blocks'])
+            H, S, B, U = ob + n, ob + n + 1, ob + n + 2, ob + n + 3
+            item_ty = h['locals'][2]['ty']
+            iter_ty = c['locals'][it['pl']['l']]['ty']
+            c['locals'].extend(copy.deepcopy(h['locals']))
+            base = len(c['locals'])
+            l_iter, l_ref, l_opt, l_d = base, base + 1, base + 2, base + 3
+            c['locals'].extend([{'ty': iter_ty, 'n': 'iter'}, {'ty': f'&mut {iter_ty}', 'n': None},
+                                {'ty': f'std::option::Option<{item_ty}>', 'n': None}, {'ty': 'isize', 'n': None}])
+            sp = t.get('sp')
+            for nb in blocks:
+                if nb['term']['k'] == 'return':
+                    nb['term'] = {'k': 'goto', 't': H}
+                c['blocks'].append(nb)
+            c['blocks'].append({'cleanup': False,
+                                'stmts': [{'pl': {'l': l_ref, 'p': []}, 'rv': {'k': 'ref', 'mut': True, 'pl': {'l': l_iter, 'p': []}}, 'sp': sp}],
+                                'term': {'k': 'call', 'f': _next_fn(item_ty, iter_ty), 'args': [{'k': 'move', 'pl': {'l': l_ref, 'p': []}}],
+                                         'dest': {'l': l_opt, 'p': []}, 't': S, 'sp': sp}})
+            c['blocks'].append({'cleanup': False,
+                                'stmts': [{'pl': {'l': l_d, 'p': []}, 'rv': {'k': 'discr', 'pl': {'l': l_opt, 'p': []}, 'adt': 'std::option::Option', 'variants': ['None', 'Some']}, 'sp': sp}],
+                                'term': {'k': 'switch', 'dty': 'isize', 'd': {'k': 'move', 'pl': {'l': l_d, 'p': []}}, 't': [['0', t['t']], ['1', B]], 'else': U, 'sp': sp}})
+            c['blocks'].append({'cleanup': False,
+                                'stmts': [{'pl': {'l': ol + 2, 'p': []}, 'rv': {'k': 'use', 'a': {'k': 'copy', 'pl': {'l': l_opt, 'p': [{'dc': 1, 'n': 'Some'}, {'f': 0, 'n': '0'}]}}}, 'sp': sp}],
+                                'term': {'k': 'goto', 't': ob}})
+            c['blocks'].append({'cleanup': False, 'stmts': [], 'term': {'k': 'unreachable'}})
+            # the call site: move the iterator into the loop's iterator local, unit into the call's destination, enter the header
+            c['blocks'][bi]['stmts'] = list(c['blocks'][bi]['stmts']) + [
+                {'pl': {'l': l_iter, 'p': []}, 'rv': {'k': 'use', 'a': it}, 'sp': sp},
+                {'pl': t['dest'], 'rv': {'k': 'use', 'a': {'k': 'const', 'ty': '()', 'txt': '()'}}, 'sp': sp}]
+            c['blocks'][bi]['term'] = {'k': 'goto', 't': H}
+            done.append((p, agg['rv']['def']))
+    return done
